@@ -106,6 +106,15 @@ def check(repo, tier):
                 raise
             for ch, sc, res, exc in paths_:
                 _floor_rule(run, repo, sc, scen, F)
+                sl_ = [e for e in sc.events('eye-slice') if e.get('fn') is not None and e['fn'].mod == MOD]
+                if sl_:
+                    # D2: the closing vector is a PIECE of the flattened identity of another (larger) bond
+                    where, cons, fl_, ln = l2rules.ev_where(repo, sl_[0], None)
+                    run.oblige('D2', (where, cons, 'closing vector'), False)
+                    run.add(Finding('C20', 'D2', where, cons, f'{scen}: the right bond is closed with {sl_[0]["detail"]}: the flattened identity of a bond of size r has its ones at the '
+                                    'positions k (r + 1); a prefix of the flattened identity of a larger bond has them elsewhere, so the "trace" picks wrong pairs of bond indices '
+                                    'whenever this bond is smaller than the largest one', fl_, ln))
+                    continue
                 if exc is not None:
                     run.oblige('D5', (ENTRY, scen, 'returns'), False)
                     l2rules.raised_finding(run, 'C20', 'D5', repo, ENTRY, scen, exc)
